@@ -35,7 +35,7 @@ func fdsInto(dir string) int {
 	return n
 }
 
-// Case: "<kind> <layout 0|1> <policy> <nEvents> <nRaw> <stopTwice 0|1> [<spreadMs: the events are spread over this time, crossing rotation boundaries>]"
+// Case: "<kind> <layout 0|1> <policy> <nEvents> <nRaw> <stopTwice 0|1> [<spreadMs: the events are spread over this time, crossing rotation boundaries> [<bufferSize>]]"
 //
 //	kind: syncfile asyncfile console file rolling rollingsep rollingasync rollingsepasync syncrollingapp
 //
@@ -117,6 +117,9 @@ func runC05Kinds(cases []string, out *bufio.Writer, _ []string) {
 		}
 		if lay {
 			cfg["logger.lg.layout.type"] = "JSONLayout"
+		}
+		if len(f) > 7 && (kind == "asyncfile" || strings.Contains(kind, "rolling") && strings.Contains(kind, "async")) { // an explicit (small) buffer: the burst overflows it
+			cfg["logger.lg.bufferSize"] = f[7]
 		}
 		stdout := &syncBuffer{}
 		log.Stdout = stdout
